@@ -711,6 +711,22 @@ func genArrivals(r *rng.R, op opDef, dev uint32, focus string) ([][]byte, string
 					b[f.off+r.Intn(f.w)] = rng.Pick(r, byte(0x1a), 0xa1, 0xff, 0x0f)
 				}
 			}
+		case "zeroed-field":
+			// a date / time field whose bytes are all zero (the "no value" sentinel) while the rest of the
+			// reply stays in domain: the zero system date with a non-zero system time, a zero timestamp ...
+			cands := []frange{}
+			for _, f := range fieldRanges(op.reply) {
+				switch f.kind {
+				case "date", "datetime", "sysdate", "systime", "hhmm", "hhmmptr", "dateptr", "datetimeptr":
+					cands = append(cands, f)
+				}
+			}
+			if len(cands) > 0 {
+				f := cands[r.Intn(len(cands))]
+				for i := 0; i < f.w; i++ {
+					b[f.off+i] = 0
+				}
+			}
 		case "mutated":
 			frs := fieldRanges(op.reply)
 			if len(frs) > 0 {
@@ -729,6 +745,9 @@ func genArrivals(r *rng.R, op opDef, dev uint32, focus string) ([][]byte, string
 	case "valid":
 		return [][]byte{mk("valid")}, "valid"
 	case "mutated":
+		if r.Chance(1, 5) {
+			return [][]byte{mk("zeroed-field")}, "zeroed-field"
+		}
 		return [][]byte{mk("mutated")}, "mutated-field"
 	case "silence":
 		return nil, "silence"
